@@ -69,6 +69,79 @@ def run(rep, tier, seed):
             rep.violation("C07/callback-of-next-session", f"session ended by {ending}; its stop callback reconnects at once with a callback for the new session, which is "
                           f"established and then reset: callbacks invoked {calls}{' errors ' + str(errs) if errs else ''}, expected {want}",
                           {"kind": "reconnect-from-hook", "ending": ending})
+    for first in ("request", "disconnect", "force", "eof", "bad-frame", "ping"):
+        for second in ("reset", "eof", "bad-frame", "request", "force"):
+            calls, want = siblings_probe(first, second)
+            rep.case(("siblings", first, second), True, sample={"siblings": [first, second], "callbacks": calls})
+            rep.bump("probe:siblings")
+            if calls != want:
+                rep.violation("C07/sibling-session", f"two sessions with the same device address in one process; A: {first}, then B: {second} (then both forced): stop callbacks "
+                              f"invoked {calls}, expected {want} (each callback once, True iff a graceful disconnect was initiated on that connection)",
+                              {"kind": "siblings", "first": first, "second": second})
+
+
+def siblings_probe(first_event, second_event):
+    """Two clients of one process hold a session with the SAME device address at the same time. `first_event` ends (or does not end)
+    session A; afterwards `second_event` ends session B. Each stop callback is for its own session only: it is invoked once, and
+    its argument says whether a graceful disconnect had been initiated on THAT connection. Returns (callbacks, expected)."""
+    import asyncio
+    from vlib import simnet
+
+    async def go(loop):
+        from aioesphomeapi import api_pb2 as pb
+        net = simnet.Net(loop)
+        calls = []
+        with net.patched():
+            async def stop_a(expected):
+                calls.append(("A", bool(expected)))
+
+            async def stop_b(expected):
+                calls.append(("B", bool(expected)))
+            cli_a, tr_a = await simnet.connected_client(loop, net, on_stop=stop_a)
+            cli_b, tr_b = await simnet.connected_client(loop, net, on_stop=stop_b)
+            want = []
+
+            async def end(name, cli, tr, ev):
+                if ev == "request":
+                    tr.feed(simnet.plain_msg(pb.DisconnectRequest()))
+                    want.append((name, True))
+                elif ev == "disconnect":
+                    t = asyncio.ensure_future(cli.disconnect())
+                    await simnet.drain(loop)
+                    tr.feed(simnet.plain_msg(pb.DisconnectResponse()))
+                    await simnet.drain(loop)
+                    await t
+                    want.append((name, True))
+                elif ev == "force":
+                    await cli.disconnect(force=True)
+                    want.append((name, True))
+                elif ev == "eof":
+                    tr.feed_eof()
+                    want.append((name, False))
+                elif ev == "reset":
+                    tr.lose(ConnectionResetError("reset"))
+                    want.append((name, False))
+                elif ev == "bad-frame":
+                    tr.feed(b"\x01\x00\x00")
+                    want.append((name, False))
+                elif ev == "ping":       # nothing ends: the device merely pings this session
+                    tr.feed(simnet.plain_msg(pb.PingRequest()))
+                await simnet.drain(loop)
+            await end("A", cli_a, tr_a, first_event)
+            # B goes on working meanwhile
+            tr_b.feed(simnet.plain_msg(pb.PingRequest()))
+            await simnet.drain(loop)
+            await end("B", cli_b, tr_b, second_event)
+            for c in (cli_a, cli_b):
+                try:
+                    await c.disconnect(force=True)
+                except Exception:  # noqa: BLE001
+                    pass
+            await simnet.drain(loop)
+            if first_event == "ping":
+                want.append(("A", True))
+        return calls, want
+    return simnet.run(go)
 
 
 def reconnect_from_hook_probe(ending):
@@ -130,6 +203,12 @@ def reconnect_from_hook_probe(ending):
 
 def replay(path):
     d = json.loads(open(path).read())["replay"]
+    if d.get("kind") == "siblings":
+        from vlib import common
+        common.setup_impl_path()
+        calls, want = siblings_probe(d["first"], d["second"])
+        print("callbacks:", calls, "expected:", want)
+        return 1 if calls != want else 0
     if d.get("kind") == "reconnect-from-hook":
         from vlib import common
         common.setup_impl_path()
